@@ -84,6 +84,17 @@ pub fn salt_len(label: &str) -> usize {
         "" => 0,
         "s64" => 64,
         "sbig" => 65,
+        // far beyond the limit, around the widths of the integer types a length might be squeezed into
+        "s255" => 255,
+        "s256" => 256,
+        "s257" => 257,
+        "s300" => 300,
+        "s320" => 320,
+        "s321" => 321,
+        "s512" => 512,
+        "s576" => 576,
+        "s1024" => 1024,
+        "s1088" => 1088,
         l => l.len(),
     }
 }
@@ -767,6 +778,33 @@ pub fn sig_replay_probes(id0: u64) -> Vec<Value> {
     v
 }
 
+/// Sizes: every salt length class (0, 64, 65, then far beyond the limit: 255 .. 1088) and value length class, each written with a
+/// fresh token and a good signature and read back; an oversized item must be refused with 207 and must not be served.
+pub fn size_probes(id0: u64) -> Vec<Value> {
+    let from = json!({"ip": "a", "port": 1001});
+    let tok = json!({"kind":"issued","step":0});
+    let mut v = vec![];
+    let mut id = id0;
+    for group in [&["s64", "sbig", "s255", "s256"][..], &["s257", "s300", "s320", "s321"][..], &["s512", "s576", "s1024", "s1088"][..]] {
+        let mut steps = vec![json!({"kind":"get","from":from,"t":["m","k1",""],"seqf":-1})];
+        for salt in group {
+            steps.push(json!({"kind":"putmut","from":from,"tok":tok,"k":"k1","tk":"k1","salt":salt,"slen":0,"seq":1,"cas":-1,"val":"w1","vlen":0,"sigok":true}));
+            steps.push(json!({"kind":"get","from":from,"t":["m","k1",salt],"seqf":-1}));
+        }
+        for val in ["wmax", "wbig"] {
+            steps.push(json!({"kind":"putmut","from":from,"tok":tok,"k":"k2","tk":"k2","salt":"","slen":0,"seq":1,"cas":-1,"val":val,"vlen":0,"sigok":true}));
+            steps.push(json!({"kind":"get","from":from,"t":["m","k2",""],"seqf":-1}));
+        }
+        for val in ["vmax", "vbig"] {
+            steps.push(json!({"kind":"putimm","from":from,"tok":tok,"t":["i",val],"val":val,"vlen":0,"hashok":true}));
+            steps.push(json!({"kind":"get","from":from,"t":["i",val],"seqf":-1}));
+        }
+        v.push(json!({"b": id, "filter": "allow", "caps": {"imm": 1000, "mut": 1000, "hash": 2000, "peers": 500}, "steps": steps}));
+        id += 1;
+    }
+    v
+}
+
 /// The same node after it took a new id: histories that start once a public-address server has confirmed its address and
 /// re-keyed. Vetoed requests are still vetoed, small stores are still small.
 pub fn rekey_probes(id0: u64) -> Vec<Value> {
@@ -917,7 +955,7 @@ pub fn run(args: &Args) -> i32 {
     let focus = args.str("focus", "C03");
     let mut rng = Rng::new(seed.wrapping_mul(77).wrapping_add(5));
     if n > 0 || args.u64("probes", 0) > 0 {
-        for b in lru_probes(2_000_000).into_iter().chain(crowd_probes(3_000_000)).chain(sig_replay_probes(5_000_000)).chain(rekey_probes(6_000_000)) {
+        for b in lru_probes(2_000_000).into_iter().chain(crowd_probes(3_000_000)).chain(sig_replay_probes(5_000_000)).chain(rekey_probes(6_000_000)).chain(size_probes(7_000_000)) {
             let r = replay(&b, &mut out, seed);
             t.add(&b, r);
         }
